@@ -26,6 +26,7 @@ META = {
                          "thorough": {"multisets size<=7 over 6 letters": 1715, "value alphabets": 5, "orders": 3, "queries": 13}},
 }
 
+META["added"] = 'Added: unsigned and narrow integer dtypes, a preallocated sample buffer queried, refilled in place and queried again, non-numeric results scored as violations (not monitor errors).'
 MANIFEST = {
     "technique": "runtime post-conditions on the real ecdf functions (all call sites) vs integer counting; exhaustive small multisets + random heavy-tie samples",
     "level_text": "All 1715 multisets of size<=7 over 6 letters x 4 value alphabets x 3 orders x 13 query positions are enumerated completely (exhaustive for that sub-space) through the real functions under an exact counting oracle, plus 10^3 (quick) / 10^5 (thorough) random large samples; sum and monotonicity identities checked per sample.",
